@@ -36,9 +36,10 @@ type componentStorage struct {
 
 // slices for re-use, to avoid allocations.
 type slices struct {
-	batches []batchTable
-	tables  []tableID
-	ints    []uint32
+	batches         []batchTable
+	relationBatches []relationBatchTable
+	tables          []tableID
+	ints            []uint32
 
 	relations        []relationID
 	relationsCleanup []relationID
@@ -50,9 +51,10 @@ type slices struct {
 // newSlices creates a new slices.
 func newSlices() *slices {
 	return &slices{
-		batches: make([]batchTable, 0, 32),
-		tables:  make([]tableID, 0, 32),
-		ints:    make([]uint32, 0, 32),
+		batches:         make([]batchTable, 0, 32),
+		relationBatches: make([]relationBatchTable, 0, 32),
+		tables:          make([]tableID, 0, 32),
+		ints:            make([]uint32, 0, 32),
 
 		relations:        make([]relationID, 0, 8),
 		relationsCleanup: make([]relationID, 0, 8),
